@@ -135,6 +135,7 @@ type Suite struct {
 	Cases    []Case
 	Extra    map[string]interface{}
 	Shard    int
+	Preamble string // optional Gallina vernacular emitted in every shard before the case list (e.g. Definitions the cases refer to)
 }
 
 type shardMeta struct {
@@ -177,6 +178,9 @@ func (s *Suite) Write(dir string, seed int64, tier string, only int) error {
 		b.WriteString("From CDI Require Import " + strings.Join(s.Imports, " ") + ".\n")
 		b.WriteString("Import ListNotations.\nOpen Scope string_scope.\n")
 		b.WriteString("Set Printing Width 1000000.\nSet Printing Depth 1000000.\n")
+		if s.Preamble != "" {
+			b.WriteString(s.Preamble + "\n")
+		}
 		b.WriteString("Definition cases : list " + s.CaseType + " := [\n")
 		for i, c := range cases[first:end] {
 			if i > 0 {
